@@ -119,6 +119,7 @@ class Unit:
         self.work, self.name, self.wrappers = work, name, wrappers
         self.includes = includes
         self.extra_src = extra_src
+        self.tail_src = ''
         self.extra_clang = list(extra_clang)
         self.native = native
         self.src = os.path.join(work, name + '.cpp')
@@ -137,6 +138,7 @@ class Unit:
             f.write(self.extra_src)
             for w in ws:
                 f.write(w.source())
+            f.write(self.tail_src)
 
     def compile_ir(self):
         inc = include_dir(self.work)
@@ -259,13 +261,19 @@ def input_terms(w, prefix='x'):
 _init_cache = {}
 
 
-def execute_wrapper(mod, w, summaries=None, inputs=None, prefix='x', init_tables=None):
+def execute_wrapper(mod, w, summaries=None, inputs=None, prefix='x', init_tables=None, state=None):
     """init_tables: None = no dynamic initialisers are run first; 'all' or a set of global names = run those table
     initialisers (in llvm.global_ctors order) in the same state before the wrapper"""
     ex = Executor(mod, summaries)
     ex.max_paths = int((w.meta or {}).get('max_paths', ex.max_paths))
     st = State()
-    if init_tables is not None:
+    if state is not None:
+        st = state.clone()   # start from a given state (C19: after a dynamic-initialisation schedule)
+        st.ub = []
+        st.events = []
+        st.status = None
+        st.ret = None
+    elif init_tables is not None:
         from .irsym import summaries as SM
         ck = (id(mod), init_tables if isinstance(init_tables, str) else tuple(sorted(init_tables)))
         if ck not in _init_cache:
